@@ -183,6 +183,22 @@ pub fn parse_ast_file(path: &Path, src: &str) -> Result<ast::File, CompilationEr
     Ok(ast)
 }
 
+/// Parses a package file other than the entry file. The offsets of its parse diagnostics refer
+/// to `src`, which is gone by the time the error is reported (the driver only has the entry
+/// file's text), so the positions are resolved here, against the file they belong to.
+pub fn parse_package_file(path: &Path, src: &str) -> Result<ast::File, CompilationError> {
+    parse_ast_file(path, src).map_err(|err| match err {
+        CompilationError::Parser { diagnostics } => compile_error(
+            parser::format_parser_diagnostics(&diagnostics, src)
+                .into_iter()
+                .map(|error| format!("{}: {}", path.display(), error))
+                .collect::<Vec<_>>()
+                .join("\n"),
+        ),
+        other => other,
+    })
+}
+
 fn typecheck_package(
     package_id: hir::PackageId,
     package: &packages::PackageUnit,
